@@ -794,6 +794,14 @@ func checkTxn(ver int, v reflect.Value, seed uint64, maxPaths int, origin string
 	rec := stats.G()
 	vs := fmt.Sprintf("v%d", ver)
 	lims, groups := limsOf(ver, v)
+	if seed%4 == 0 {
+		// IDs are a function of the content, not of what the process hashed before: calls that panic half-way through
+		// hashing (and are recovered, as an RPC handler would) must leave nothing behind in the pooled hashers
+		n := netOf([3]uint64{1, 2, 3})
+		if sim.AbortedCalls(stateAt(n, 5), types.Block{}) > 0 {
+			rec.Label("after-recovered-hashing-panics")
+		}
+	}
 	base := snapshot(ver, v, lims)
 
 	// library == reference layout
